@@ -254,7 +254,7 @@ def run(ctx):
     ctx.extra["unmodelled_operations"] = unmodelled
     cases.sort(key=lambda c: json.dumps(c, sort_keys=True))
     total = len(cases)
-    cases = ctx.subsample(cases, 14000 if q else 10 ** 6)
+    cases = ctx.subsample_by(cases, lambda c: (c["op"], c["form"]), 450) if q else cases
     events = ctx.pmap(execute, cases)
     bad = [e for e in events if e["odc"]["oc"].startswith("harness_")]
     if bad:
